@@ -93,6 +93,8 @@ type s1 struct {
 	cfg  *RunCfg
 	srv  *ServerInst
 	w    *RawPeer
+	twin *ServerInst // C02: a second server that is never sent a failing transaction
+	tw   *RawPeer
 	obs  []*observer
 	db   string
 	last DBState
@@ -162,6 +164,7 @@ func cfgS1(prop string, seed uint64, tier string) *RunCfg {
 		nobs = 1 + r.Intn(3)
 	case "C02":
 		nobs = 1 + r.Intn(2)
+		c.Knobs["twin"] = r.Intn(2)
 	}
 	sch := KitchenSink(c.SchemaVariant)
 	for i := 0; i < nobs; i++ {
@@ -267,6 +270,16 @@ func runS1(e *Env, cfg *RunCfg) {
 		e.Fatalf("writer dial: %v", err)
 		return
 	}
+	if e.Property == "C02" && cfg.Knob("twin", 0) == 1 {
+		s.twin = e.StartServer(epTwin, false, nil)
+		if e.Stopped() {
+			return
+		}
+		if s.tw, err = e.NewRawPeer("tw", epTwin); err != nil {
+			e.Fatalf("twin dial: %v", err)
+			return
+		}
+	}
 	for i, txn := range cfg.Txns {
 		for _, m := range cfg.Monitors {
 			if m.AfterTxn == i {
@@ -284,6 +297,58 @@ func runS1(e *Env, cfg *RunCfg) {
 		if e.Stopped() {
 			return
 		}
+		if s.twin != nil && !out.Failed {
+			s.twinStep(i, out)
+			if e.Stopped() {
+				return
+			}
+		}
+	}
+}
+
+const epTwin = "twin:6640"
+
+// twinStep sends a transaction that succeeded on the main server to the twin,
+// which has seen every earlier successful transaction and none of the failed
+// ones: "a later transaction behaves as if the failed one had never been
+// submitted" means reply, contents and reference index must agree.
+func (s *s1) twinStep(i int, out *TxnOutcome) {
+	e := s.e
+	params := []any{s.db}
+	for _, op := range out.Ops {
+		params = append(params, op)
+	}
+	call := s.tw.Call("transact", params)
+	if !e.RunUntil(func() bool { return call.Done }) || !e.Settle() {
+		if !e.Stopped() {
+			e.ViolateK("C02.twin-divergence", "hang", "transaction %d was answered by the server that saw %d failed transactions but never by a server that did not\nops: %s", i, e.Probes["txn_failed"], shortOps(out.Ops))
+		}
+		return
+	}
+	e.Probes["c02_twin_compared"]++
+	var got string
+	if call.ErrorStr != "" {
+		got = "rpc-error:" + call.ErrorStr
+	} else if res, err := decodeResults(call.Result); err != nil {
+		got = "undecodable:" + err.Error()
+	} else {
+		got = canonResults(e.Sch, out.Ops, res)
+	}
+	if want := canonResults(e.Sch, out.Ops, out.Res); got != want {
+		e.ViolateK("C02.twin-divergence", "reply", "transaction %d is answered differently by a server that saw %d failed transactions before it and by one that saw none\nwith failures: %s\nwithout:       %s\nops: %s\nbefore:\n%s", i, e.Probes["txn_failed"], want, got, shortOps(out.Ops), trimStr(out.Before.String(), 2500))
+		return
+	}
+	st, refs, ok := e.SnapshotDB(s.twin)
+	if !ok {
+		e.Fatalf("cannot snapshot the twin after transaction %d", i)
+		return
+	}
+	if d := DiffStates(out.After, st, e.Sch.TableNames, nil); d != "" {
+		e.ViolateK("C02.twin-divergence", "contents", "after transaction %d the database that saw %d failed transactions differs from one that saw none (with vs without):\n%s\nops: %s", i, e.Probes["txn_failed"], d, shortOps(out.Ops))
+		return
+	}
+	if d := diffRefs(out.RefsAft, refs); d != "" {
+		e.ViolateK("C02.twin-divergence", "refs", "after transaction %d the reference index of the database that saw %d failed transactions differs from one that saw none (with vs without):\n%s\nops: %s", i, e.Probes["txn_failed"], d, shortOps(out.Ops))
 	}
 }
 
@@ -295,9 +360,20 @@ func (s *s1) transact(i int, txn TxnSpec) *TxnOutcome {
 		e.Fatalf("cannot snapshot before transaction %d", i)
 		return nil
 	}
-	g := NewGen(e.Sch, txn.GenSeed, before, ProfileByName(txn.Profile), fmt.Sprintf("t%d", i))
+	prof := ProfileByName(txn.Profile)
+	if s.twin != nil {
+		prof.ExplicitID = 1000 // the twin must create the same rows
+	}
+	g := NewGen(e.Sch, txn.GenSeed, before, prof, fmt.Sprintf("t%d", i))
 	ops, meta := g.Txn()
 	ops = NormalizeOps(ops)
+	if s.twin != nil {
+		for k, op := range ops {
+			if _, has := op["uuid"]; !has && op["op"] == "insert" {
+				op["uuid"] = fmt.Sprintf("%08x-7717-4000-a000-%012d", i+1, k)
+			}
+		}
+	}
 	out := &TxnOutcome{Ops: ops, Meta: meta, Before: before, RefsBef: refsB, OpFailAt: -1}
 	commits0 := len(s.srv.DB.Commits)
 	params := []any{s.db}
